@@ -3,6 +3,8 @@ package main
 import (
 	"fmt"
 	"go/token"
+	"go/types"
+	"sort"
 	"strings"
 
 	"golang.org/x/tools/go/ssa"
@@ -75,45 +77,88 @@ func ruleAztecState(c *Ctx) {
 		if obj == nil {
 			c.Undecided(R, "aztec.(*state).addBinaryShiftChar/result", fn.Pos(), "no new state")
 		} else {
-			for _, st := range fieldStores(fn, obj, "mode") {
-				if phi, ok := st.Val.(*ssa.Phi); ok {
-					checkPhiDef(c, R, "aztec.(*state).addBinaryShiftChar/mode", n, fn, nil, phi, []edgeSpec{
-						{fmt.Sprint(mv["mode_upper"]), fmt.Sprintf("s.mode == %d || s.mode == %d", mv["mode_punct"], mv["mode_digit"])},
-						{"s.mode", fmt.Sprintf("!(s.mode == %d || s.mode == %d)", mv["mode_punct"], mv["mode_digit"])}})
-				} else {
-					c.Check(R, "aztec.(*state).addBinaryShiftChar/mode", st.Pos(), false, "upper after a latch, else unchanged", n.Norm(st.Val).String())
+			// the value a field of the new state has when it is returned: one store, or - when the state is
+			// built first and patched under the latch condition - the last store on each path
+			st0 := obj.Type().Underlying().(*types.Pointer).Elem().Underlying().(*types.Struct)
+			finalCases := func(name string) ([]valCase, token.Pos, bool) {
+				sts := fieldStores(fn, obj, name)
+				if len(sts) == 1 {
+					return n.valueCases(fn, nil, sts[0].Val, 0), sts[0].Pos(), true
 				}
-			}
-			for _, st := range fieldStores(fn, obj, "bShiftByteCount") {
-				c.expectPoly(R, "aztec.(*state).addBinaryShiftChar/count", st.Pos(), n, st.Val, "s.bShiftByteCount + 1")
-			}
-			for _, st := range fieldStores(fn, obj, "bitCount") {
-				add, ok := st.Val.(*ssa.BinOp)
-				// the per-byte cost: the operand of the sum whose alternatives are all constants
-				var delta []valCase
-				if ok && add.Op == token.ADD {
-					for _, op := range []ssa.Value{add.Y, add.X} {
-						cs := n.valueCases(fn, nil, op, 0)
-						allConst := len(cs) > 1
-						for _, k := range cs {
-							if _, isK := k.val.IsConst(); !isK {
-								allConst = false
-							}
-						}
-						if allConst {
-							delta = cs
-							break
-						}
+				if len(sts) == 0 {
+					return nil, fn.Pos(), false
+				}
+				fidx := -1
+				for i := 0; i < st0.NumFields(); i++ {
+					if fname(st0.Field(i)) == name {
+						fidx = i
 					}
 				}
-				if delta == nil {
-					c.Undecided(R, "aztec.(*state).addBinaryShiftChar/delta", st.Pos(), "bit cost is not a choice of constants")
-					continue
+				if fidx < 0 {
+					return nil, fn.Pos(), false
 				}
-				checkCases(c, R, "aztec.(*state).addBinaryShiftChar/delta", st.Pos(), delta, []edgeSpec{
-					{"18", "s.bShiftByteCount == 0 || s.bShiftByteCount == 31"},
-					{"9", "s.bShiftByteCount != 0 && s.bShiftByteCount != 31 && s.bShiftByteCount == 62"},
-					{"8", "s.bShiftByteCount != 0 && s.bShiftByteCount != 31 && s.bShiftByteCount != 62"}})
+				cs, ok := n.firstEscapeCases(cellRef{obj, []int{fidx}})
+				return cs, sts[0].Pos(), ok
+			}
+			latchC := fmt.Sprintf("s.mode == %d || s.mode == %d", mv["mode_punct"], mv["mode_digit"])
+			if cs, pos, ok := finalCases("mode"); ok {
+				checkCases(c, R, "aztec.(*state).addBinaryShiftChar/mode", pos, cs, []edgeSpec{
+					{fmt.Sprint(mv["mode_upper"]), latchC},
+					{"s.mode", "!(" + latchC + ")"}})
+			} else {
+				c.Undecided(R, "aztec.(*state).addBinaryShiftChar/mode", fn.Pos(), "mode of the new state is not decided by its stores")
+			}
+			if cs, pos, ok := finalCases("bShiftByteCount"); ok && len(cs) == 1 {
+				c.Check(R, "aztec.(*state).addBinaryShiftChar/count", pos, pEqual(cs[0].val, MustRef("s.bShiftByteCount + 1")), "s.bShiftByteCount + 1", cs[0].val.String())
+			} else {
+				c.Undecided(R, "aztec.(*state).addBinaryShiftChar/count", fn.Pos(), "byte count of the new state is not decided by its stores")
+			}
+			// the bit count grows by the per-byte cost (and by the latch, when one was needed): the cost
+			// is what remains of the new count after the old count and the latch bits are taken away
+			if cs, pos, ok := finalCases("bitCount"); ok {
+				// alternatives hidden in the stored expressions (the cost may come from a helper)
+				var flat []valCase
+				for _, c0 := range cs {
+					flat = append(flat, c0)
+				}
+				byCost := map[int64]*Cond{}
+				bad := ""
+				for _, c0 := range flat {
+					rest := Poly{}
+					for m, cf := range c0.val {
+						if m == "s.bitCount" && cf == 1 {
+							continue
+						}
+						if strings.Contains(m, "latchTable") {
+							continue
+						}
+						rest[m] = cf
+					}
+					k, isK := rest.IsConst()
+					if !isK {
+						bad += c0.val.String() + "; "
+						continue
+					}
+					if byCost[k] == nil {
+						byCost[k] = cFalse
+					}
+					byCost[k] = cOr(byCost[k], c0.cond)
+				}
+				if bad != "" {
+					c.Undecided(R, "aztec.(*state).addBinaryShiftChar/delta", pos, "bit cost is not a choice of constants: "+bad)
+				} else {
+					var delta []valCase
+					for k, cd := range byCost {
+						delta = append(delta, valCase{pConst(k), cd})
+					}
+					sort.Slice(delta, func(i, j int) bool { a, _ := delta[i].val.IsConst(); b, _ := delta[j].val.IsConst(); return a > b })
+					checkCases(c, R, "aztec.(*state).addBinaryShiftChar/delta", pos, delta, []edgeSpec{
+						{"18", "s.bShiftByteCount == 0 || s.bShiftByteCount == 31"},
+						{"9", "s.bShiftByteCount != 0 && s.bShiftByteCount != 31 && s.bShiftByteCount == 62"},
+						{"8", "s.bShiftByteCount != 0 && s.bShiftByteCount != 31 && s.bShiftByteCount != 62"}})
+				}
+			} else {
+				c.Undecided(R, "aztec.(*state).addBinaryShiftChar/delta", fn.Pos(), "bit count of the new state is not decided by its stores")
 			}
 		}
 	}
